@@ -21,6 +21,7 @@ import (
 	"fmt"
 	"math"
 	"math/rand"
+	"sync"
 	"testing"
 
 	pipe "github.com/fogfish/golem/purepipe"
@@ -44,6 +45,7 @@ type trace struct {
 	Ret    any             `json:"ret"`
 	Want   json.RawMessage `json:"want,omitempty"`
 	Second bool            `json:"second"`
+	Conc   int             `json:"conc,omitempty"` // > 0: one of that many invocations of the same composed function running at once
 	Panic  string          `json:"panic,omitempty"`
 }
 
@@ -299,6 +301,74 @@ func cpSeq(x []int) any {
 	return append([]int{}, x...)
 }
 
+// concurrent runs one composed function of arity n from k goroutines at once: the functions handed to PipeN are pure, so
+// the composed function is, and every invocation must be exactly what it is alone.  Family "seq" (F[i](x) = Append(x, i)):
+// goroutine g passes the argument [100+g], so every value of its invocation starts with 100+g and the shared call log
+// (written under a lock) can be split into one trace per invocation.
+func concurrent(n, k, rounds int, out *vio.Out) int {
+	var mu sync.Mutex
+	log := []call{}
+	fs := make([]func([]int) []int, n)
+	for i := 1; i <= n; i++ {
+		fs[i-1] = func(x []int) []int {
+			r := make([]int, 0, len(x)+1)
+			r = append(append(r, x...), i)
+			mu.Lock()
+			log = append(log, call{I: i, Arg: append([]int{}, x...), Res: append([]int{}, r...)})
+			mu.Unlock()
+			return r
+		}
+	}
+	var g func([]int) []int
+	panicked := ""
+	func() {
+		defer func() {
+			if r := recover(); r != nil {
+				panicked = fmt.Sprint(r)
+			}
+		}()
+		g = compose(n, fs)
+	}()
+	if g == nil {
+		out.Put(trace{Fam: "seq", N: n, A: []int{100}, Calls: []call{}, Panic: panicked, Conc: k})
+		return 1
+	}
+	emitted := 0
+	for round := 0; round < rounds; round++ {
+		log = log[:0]
+		rets := make([]any, k)
+		pans := make([]string, k)
+		var start, done sync.WaitGroup
+		start.Add(1)
+		for gi := 0; gi < k; gi++ {
+			done.Add(1)
+			go func() {
+				defer done.Done()
+				defer func() {
+					if r := recover(); r != nil {
+						pans[gi] = fmt.Sprint(r)
+					}
+				}()
+				start.Wait()
+				rets[gi] = cpSeq(g([]int{100 + gi}))
+			}()
+		}
+		start.Done()
+		done.Wait()
+		for gi := 0; gi < k; gi++ {
+			t := trace{Fam: "seq", N: n, A: []int{100 + gi}, Calls: []call{}, Ret: rets[gi], Panic: pans[gi], Conc: k}
+			for _, c := range log {
+				if a := c.Arg.([]int); len(a) > 0 && a[0] == 100+gi {
+					t.Calls = append(t.Calls, c)
+				}
+			}
+			out.Put(t)
+			emitted++
+		}
+	}
+	return emitted
+}
+
 type genCase struct {
 	Fam  string          `json:"fam"`
 	N    int             `json:"n"`
@@ -351,7 +421,12 @@ func TestReplay(t *testing.T) {
 	if err != nil {
 		t.Fatal(err)
 	}
-	out.Put(map[string]any{"t": "stats", "cases": ncases, "traces": ntraces})
+	// every arity once more, four invocations at a time
+	nconc := 0
+	for n := 2; n <= 20; n++ {
+		nconc += concurrent(n, 4, vio.EnvInt("VERIF_CONC_ROUNDS", 6), out)
+	}
+	out.Put(map[string]any{"t": "stats", "cases": ncases, "traces": ntraces + nconc, "concurrent": nconc})
 }
 
 func TestRandom(t *testing.T) {
